@@ -147,6 +147,21 @@ func c33Gen(rt *rapid.T) c33Input {
 		iv.N, iv.A = 0, c33BlockAddr
 		iv.Gas = rapid.SampledFrom([]uint64{1, 2, 3, 4, 5, 100}).Draw(rt, "ivg")
 		in.Ops = append(in.Ops, iv)
+		// what the first invocation left in the machine (its counter above all) is looked at again:
+		// a second invoke of the same machine and/or expunge, which returns the counter
+		switch rapid.IntRange(0, 3).Draw(rt, "after_invoke") {
+		case 0:
+			ex := mk(5)
+			ex.N = 0
+			in.Ops = append(in.Ops, ex)
+		case 1, 2:
+			iv2 := mk(4)
+			iv2.N, iv2.A = 0, c33BlockAddr
+			iv2.Gas = rapid.SampledFrom([]uint64{1, 2, 3, 100}).Draw(rt, "ivg2")
+			ex := mk(5)
+			ex.N = 0
+			in.Ops = append(in.Ops, iv2, ex)
+		}
 	}
 	n := rapid.IntRange(1, 24).Draw(rt, "nops")
 	for i := 0; i < n; i++ {
@@ -380,8 +395,10 @@ func c33Check(c *kit.Case, in c33Input) {
 				switch e.Kind {
 				case ref.Halt:
 					want7, want8set = INNERHALT, false
+					m.pc = 0 // GP A.1: a halt or panic yields counter 0, and invoke stores what Ψ yields
 				case ref.Panic:
 					want7, want8set = INNERPANIC, false
+					m.pc = 0
 				case ref.OOG:
 					want7, want8set = INNEROOG, false
 					m.pc = rm.PC
@@ -501,11 +518,8 @@ func c33Check(c *kit.Case, in c33Input) {
 			if d := c33MemEq(&im.Memory, mm.mem); d != "" {
 				c.Failf("%s: inner machine %d memory differs from the model: %s", desc, id, d)
 			}
-			if uint64(im.PC) != mm.pc && !(op.Kind == 4 && op.N == id && (want7 == INNERHALT || want7 == INNERPANIC)) {
+			if uint64(im.PC) != mm.pc {
 				c.Failf("%s: inner machine %d counter %d, model %d", desc, id, im.PC, mm.pc)
-			}
-			if op.Kind == 4 && op.N == id && (want7 == INNERHALT || want7 == INNERPANIC) {
-				mm.pc = uint64(im.PC) // after halt/panic the stored counter is not specified beyond being a counter
 			}
 		}
 	}
@@ -520,7 +534,7 @@ func TestVerif_C33(t *testing.T) {
 	s := kit.Begin(t, "C33")
 	defer s.Finish()
 	s.EnableSentinel()
-	kit.Run(s, "inner_machine_call_sequences", kit.N{Quick: 6000, Thorough: 300000}, c33Gen, c33Check)
+	kit.Run(s, "inner_machine_call_sequences", kit.N{Quick: 24000, Thorough: 300000}, c33Gen, c33Check)
 }
 
 // FuzzVerif_C33: native coverage-guided fuzzing of inner-machine call sequences (thorough tier).
